@@ -111,7 +111,7 @@ pub mod state_handle {
     //@ fn src/writers/file_log_writer/state_handle.rs impl StateHandle / fn plain_write
     //@   ret r
     //@   props C15
-    //@   rule R3 1
+    //@   rule R3 *
     //@   req[plain_write.async.pre.perm] forall|m: Seq<u8>| #[trigger] send_ok(m) <==> (self is Async && m == buffer@ && !is_control(m))
     //@   req[plain_write.async.pre.arm] self is Async
     //@   closure 2 sig |_u: ()| -> (r: usize)
